@@ -171,11 +171,11 @@ def parse_terse(out):
     return res
 
 
-def run_kani_group(features, obls, timeout_s):
+def run_kani_group(features, obls, timeout_s, jobs=None):
     """Run the harnesses of `obls` (same feature set). Returns (results, build_error)."""
     harnesses = sorted({o.target for o in obls})
     cmd = kani_base(features) + ["--harness-timeout", f"{timeout_s}s", "--output-format", "terse",
-                                 "-j", str(max(2, JOBS)), "--exact"]
+                                 "-j", str(jobs if jobs else max(2, JOBS)), "--exact"]
     for h in harnesses:
         cmd += ["--harness", h]
     t0 = time.time()
@@ -402,7 +402,15 @@ def main():
     set_build(prop, [o.target for o in kobls] + [o.confirm for o in kobls])
     for features in sorted({o.features for o in kobls}):
         group = [o for o in kobls if o.features == features]
-        res, build_err, wall = run_kani_group(features, group, timeout_s)
+        # memory-heavy harnesses run in a second pass with fewer parallel CBMC processes
+        light = [o for o in group if getattr(o, "mem_gb", 0) < 4]
+        heavy = [o for o in group if getattr(o, "mem_gb", 0) >= 4]
+        res, build_err, wall = run_kani_group(features, light, timeout_s) if light else ({}, None, 0.0)
+        if heavy and build_err is None:
+            jobs = max(1, min(JOBS, 44 // max(o.mem_gb for o in heavy)))
+            res2, build_err, wall2 = run_kani_group(features, heavy, timeout_s, jobs=jobs)
+            res.update(res2)
+            wall += wall2
         prune_build(features)
         cmds.append("RUSTFLAGS='--cfg dsi_bitstream_verif' cargo kani -Z stubbing --exact --harness <each>"
                     + (f" --features {features}" if features else ""))
